@@ -355,7 +355,7 @@ class Check:
                                            "public API the property is about is unusable for this instantiation",
                                            "errors": errs})
 
-    def harness_output(self, name, rc, out, err, allow_rc=(0,)):
+    def harness_output(self, name, rc, out, err, allow_rc=(0,), only=None):
         """Standard protocol of harness programs: lines 'MISMATCH <key> <json>' and a final
         'SUMMARY <json>'.  A sanitizer report, signal or missing summary is a violation too."""
         summ = None
@@ -366,7 +366,8 @@ class Check:
                     det = json.loads(parts[2])
                 except Exception:
                     det = parts[2] if len(parts) > 2 else ""
-                self.violation(parts[1], det)
+                if only is None or parts[1].startswith(only) or parts[1].startswith("crash"):
+                    self.violation(parts[1], det)
             elif line.startswith("SUMMARY "):
                 summ = json.loads(line[8:])
         if rc not in allow_rc or summ is None:
